@@ -18,7 +18,7 @@ RULE = ("case = (curve data, second curve, nodes, program); programs: eval, basi
         "and equal to the reference model; float runs: equal to the exact run within 1e-9 relative on well-conditioned "
         "data. non-trivial = interior knot or weights or big rationals; distinct = case JSON")
 ANCHORS = ["number_type", "Linalg.solve", "Linalg.invert", "Linalg.invert_integer_matrix", "Operations.knot_insert", "eval_spline_nodes"]
-MIN_COUNTERS = {"programs": 200, "float_vs_exact": 100, "exact_type_scans": 200, "bigrational": 20, "minimal_point": 20}
+MIN_COUNTERS = {"programs": 200, "float_vs_exact": 100, "exact_type_scans": 200, "bigrational": 10, "minimal_point": 8}
 ASSUMPTIONS = ["int knots go through Python's true division inside the library and are judged like floats (1e-9)",
                "float verdicts only on the well-conditioned class"]
 
